@@ -347,6 +347,36 @@ def r3_arity_dispatch_shape(ctx):
     ctx.ob("C08.R3", f"{GEN}::__multi_arity_dispatch_fn::rest arity only when nargs >= max fixed arity", GEN, fn.lineno, ok, "" if ok else "the variadic arity is selected by a different test")
     ok = "ast.Raise(" in txt and "ArityException" in txt or "_ARITY_EXC" in txt or "RuntimeException" in txt
     ctx.ob("C08.R3", f"{GEN}::__multi_arity_dispatch_fn::falls through to a raise", GEN, fn.lineno, ok, "" if ok else "no arity error is raised when nothing matches")
+    # the dispatch function finds its arity functions and its table by *name*, at call time, in the
+    # module: for a def'ed fn those names must be fresh per definition, or a second (def f ...) turns
+    # the function f held before into the new one's arities
+    mf = ctx.fn(GEN, "__multi_arity_fn_to_py_ast")
+    fstr = [j for j in ast.walk(mf) if isinstance(j, ast.JoinedStr) and "__arity" in P.un(j)]
+    if not fstr:
+        raise AnalysisError("__multi_arity_fn_to_py_ast no longer builds the arity function names with an f-string")
+    base = next((P.un(v.value) for v in fstr[0].values if isinstance(v, ast.FormattedValue)), None)
+    srcs = [a.value for a in ast.walk(mf) if isinstance(a, ast.Assign) and P.un(a.targets[0]) == base]
+
+    def fresh_for_defs(v):
+        if isinstance(v, ast.Call) and P.un(v.func) == "genname":
+            return True
+        if isinstance(v, ast.IfExp):
+            t = P.un(v.test)
+            if t == "def_name is None":
+                return fresh_for_defs(v.orelse)
+            if t == "def_name is not None":
+                return fresh_for_defs(v.body)
+        return False
+    ok = bool(srcs) and all(fresh_for_defs(v) for v in srcs)
+    ctx.ob("C08.R3", f"{GEN}::__multi_arity_fn_to_py_ast::the arity functions of a def'ed fn get names fresh per definition", GEN, mf.lineno, ok,
+           "" if ok else f"the arity function names are built from `{base}`, which for a def'ed fn is the munged name of the Var alone: the module globals of the first definition are overwritten by the second, and the first function -- still reachable under another name -- dispatches into the second's code",
+           witness="(def multi-orig multi) then a second (defn multi ...) with other arities: (multi-orig 1 2) raises a spurious arity error")
+    dcall = [c for c in P.calls(mf) if P.un(c.func) == "__multi_arity_dispatch_fn"]
+    passes = bool(dcall) and any(P.un(k.value) == base for k in dcall[0].keywords) and any(
+        isinstance(j, ast.JoinedStr) and "_dispatch_map" in P.un(j) and any(isinstance(v, ast.FormattedValue) and any(k.arg in P.names_read(v.value) for k in dcall[0].keywords if P.un(k.value) == base) for v in j.values)
+        for j in ast.walk(fn))
+    ctx.ob("C08.R3", f"{GEN}::__multi_arity_dispatch_fn::the dispatch table is named with the same fresh prefix", GEN, fn.lineno, passes,
+           "" if passes else "the dispatch table of a def'ed fn is still a module global named after the Var alone")
     # partial and Var forwarding
     up = ctx.fn(RT, "_update_signature_for_partial")
     t = P.un(up)
@@ -363,6 +393,10 @@ def r3_arity_dispatch_shape(ctx):
 
 
 SELFTEST = [
+    {"name": "arity functions of a def'ed fn named after the Var alone (the repaired defect)", "file": GEN, "expect": "C08.R3",
+     "old": "    arity_prefix = py_fn_name if def_name is None else genname(py_fn_name)\n", "new": "    arity_prefix = py_fn_name\n"},
+    {"name": "dispatch table of a def'ed fn named after the Var alone", "file": GEN, "expect": "C08.R3",
+     "old": "        dispatch_map_prefix=arity_prefix,\n", "new": ""},
     {"name": "variadic apply_to star-expands the tail", "file": RT, "expect": "C08.R1",
      "old": "            return f(*args, _WrappedRestArgs(rest))\n", "new": "            return f(*args, *rest)\n"},
     {"name": "apply realises the tail before apply_to", "file": RT, "expect": "C08.R1",
